@@ -6,6 +6,7 @@ import (
 	"crypto/rand"
 	"encoding/binary"
 	"fmt"
+	"github.com/privacybydesign/gabi/internal/simhook"
 	"sync/atomic"
 
 	"github.com/privacybydesign/gabi/big"
@@ -58,6 +59,7 @@ func (c *CPRNG) Read(buf []byte) (n int, err error) {
 	// Atomically increment counter by the number of blocks and set iv to
 	// the first available block.
 	iv := atomic.AddUint64(&c.counter, nBlocks) - nBlocks
+	simhook.Yield("CPRNG.Read:reserved")
 	for {
 		binary.LittleEndian.PutUint64(pt[:], iv)
 		iv++
@@ -83,6 +85,7 @@ func (c *CPRNG) Read(buf []byte) (n int, err error) {
 // FastRandomBigInt derives a random number uniformly chosen below the given limit
 // from a random 256 bit seed generated when the application starts.
 func FastRandomBigInt(limit *big.Int) *big.Int {
+	simhook.Yield("common.FastRandomBigInt")
 	res, err := big.RandInt(globalCprng, limit)
 	if err != nil {
 		panic(fmt.Sprintf("big.RandInt failed: %v", err))
